@@ -111,7 +111,7 @@ class Verifier:
         return [c for (f, c) in self.reg.lemmas.values()]
 
     def all_contracts(self):
-        return list(self.reg.contracts.values()) + self.lemma_contracts()
+        return [c for c in self.reg.contracts.values() if not c.abstract] + self.lemma_contracts()
 
     # ------------------------------------------------------------------
     def verify(self, contract, timeout_ms=10000, max_paths=4000, termination=False, seed=0):
@@ -188,12 +188,14 @@ class Verifier:
         module = func.module
         self_cls = None
         for name in params:
-            if name == 'self' and func.cls is not None and 'self' not in contract.params:
+            if name == 'self' and func.cls is not None and contract.params.get('self') is None:
                 cls = func.cls
-                if contract.for_class:
+                if contract.for_class_obj is not None:
+                    cls = contract.for_class_obj
+                elif contract.for_class:
                     cls = reg.find_class(contract.for_class, module)
                 self_cls = cls
-                locals_['self'] = reg.fresh_object(I, cls, 'self')
+                locals_['self'] = reg.fresh_object(I, cls, 'self', assume_inv=False)
                 continue
             ty = contract.params.get(name)
             if ty is None:
@@ -203,9 +205,13 @@ class Verifier:
                     locals_[name] = I.ev(a.defaults[di], Frame(None, {}, module))
                     continue
                 raise OutOfSubset('contract %s gives no type for parameter %s' % (contract.ident, name))
-            locals_[name] = reg.fresh_of_type(I, ty, name, module)
-            if name == 'self' and isinstance(locals_[name], VObj):
-                self_cls = locals_[name].cls
+            if name == 'self':
+                locals_[name] = reg.fresh_of_type(I, ty, name, module)
+                if isinstance(locals_[name], VObj):
+                    self_cls = locals_[name].cls
+            else:
+                locals_[name] = VLazy({'make': (lambda ty=ty, name=name: reg.fresh_of_type(I, ty, name, module)),
+                                       'value': None})
         if a.vararg:
             locals_[a.vararg.arg] = VTuple([])
         for p_, d in zip(a.kwonlyargs, a.kw_defaults):
@@ -241,10 +247,13 @@ class Verifier:
                 path.assume(I.truth(I.ev(inv, cf)))
         for r in contract.requires:
             path.assume(I.truth(I.ev(r, cf)))
+        for text, e in contract.assumes:
+            path.assume(I.truth(I.ev(e, cf)))
         if not path.feasible(z3.BoolVal(True)):
             return 'infeasible-entry'
         old = I.snapshot_frame(cf)
         I.inputs_v = ({k: v for k, v in old.locals.items() if k in locals_}, dict(ghosts))
+        I.inputs_force = I.force
         cf.old = old
         fr.old = old
         # ghosts visible to loop invariants
@@ -299,19 +308,20 @@ class Verifier:
             return 'return'
         # exceptional outcome
         pf.locals['exc'] = exc
-        matched = False
-        for rc in contract.raises:
-            cls = I.resolve_exc_class(rc.exc, func.module)
-            if self.prog.issubclass(exc.cls, cls):
-                matched = True
-                if rc.when is not None:
-                    t = I.truth(I.ev(rc.when, old))
-                    I.prove(t, 'raises', '%s/raises(%s).when' % (cname, rc.exc), 0)
-                for i, e in enumerate(rc.ensures):
-                    I.prove(I.truth(I.ev(e, pf)), 'raises', '%s/raises(%s).ensures.%d' % (cname, rc.exc, i), 0)
-                break
-        if not matched:
-            I.prove(z3.BoolVal(False), 'raises', '%s/raises.unlisted(%s)' % (cname, exc.cls.name), 0)
+        for ecls in (exc.cls_set or [exc.cls]):
+            matched = False
+            for rc in contract.raises:
+                cls = I.resolve_exc_class(rc.exc, self.reg.spec_module_for(contract))
+                if self.prog.issubclass(ecls, cls):
+                    matched = True
+                    if rc.when is not None:
+                        t = I.truth(I.ev(rc.when, old))
+                        I.prove(t, 'raises', '%s/raises(%s).when' % (cname, rc.exc), 0)
+                    for i, e in enumerate(rc.ensures):
+                        I.prove(I.truth(I.ev(e, pf)), 'raises', '%s/raises(%s).ensures.%d' % (cname, rc.exc, i), 0)
+                    break
+            if not matched:
+                I.prove(z3.BoolVal(False), 'raises', '%s/raises.unlisted(%s)' % (cname, ecls.name), 0)
         return 'raise:' + exc.cls.name
 
     def exec_lemma_body(self, I, body, fr):
